@@ -17,19 +17,26 @@ structure VisitPost (p : Params) (e : Emit) (fl : Flags) (i : Nat) (e' : Emit) (
   wf : ∃ M', WF p e' M'
   mono : ∀ j, j < p.n → (e.ctx.var j).done = true → (e'.ctx.var j).done = true
   pend : fl.pending = true → fl'.pending = true
-  visited : (e'.ctx.var i).done = true ∨ fl'.pending = true
+  visited : (e'.ctx.var i).done = true ∨ fl'.pending = true ∨ (e'.ctx.var i).cur.isReg = false
+  kind : ∀ j, (e'.ctx.var j).cur.isReg = (e.ctx.var j).cur.isReg
 
 theorem shuffleVar_ok (p : Params) (hy : Hyp p) (e : Emit) (M : State) (hw : WF p e M) (fl : Flags) (i : Nat) (hi : i < p.n)
     (e' : Emit) (fl' : Flags) (h : shuffleVar p.cfg (e, fl) i = .ok (e', fl')) : VisitPost p e fl i e' fl' := by
-  have hv := hw.var i hi
   unfold shuffleVar at h
   simp only at h
   by_cases hd : (e.ctx.var i).done = true
   · simp only [hd, Bool.true_or, if_true] at h
     cases h
-    exact ⟨⟨M, hw⟩, fun _ _ h => h, fun h => h, Or.inl hd⟩
+    exact ⟨⟨M, hw⟩, fun _ _ h => h, fun h => h, Or.inl hd, fun _ => rfl⟩
   · have hd' : (e.ctx.var i).done = false := by simpa using hd
-    have h0 : ((e.ctx.var i).done || !(e.ctx.var i).cur.isReg) = false := by simp [hd', hv.curReg]
+    by_cases hreg : (e.ctx.var i).cur.isReg = true
+    case neg =>
+      have hreg' : (e.ctx.var i).cur.isReg = false := by simpa using hreg
+      simp only [hd', hreg', Bool.not_false, Bool.or_true, if_true] at h
+      cases h
+      exact ⟨⟨M, hw⟩, fun _ _ h => h, fun h => h, Or.inr (Or.inr hreg'), fun _ => rfl⟩
+    have hv := hw.var i hi hreg
+    have h0 : ((e.ctx.var i).done || !(e.ctx.var i).cur.isReg) = false := by simp [hd', hreg]
     simp only [h0, Bool.false_eq_true, if_false] at h
     have hgne : ¬ (groupOf (e.ctx.var i).cur.regType ≠ groupOf (e.ctx.var i).out.regType) := by simp [hv.grp]
     simp only [hgne, if_false] at h
@@ -50,8 +57,8 @@ theorem shuffleVar_ok (p : Params) (hy : Hyp p) (e : Emit) (M : State) (hw : WF 
             | none => rfl
             | some x => rw [hh] at h1; simp at h1
           · right; exact h1.symm
-        obtain ⟨M', hw', hm, hdn⟩ := emitMove_ok p hy e M hw i _ hi hd' hv.outLt hfree' (fun _ => rfl) _ hem
-        exact ⟨⟨M', hw'⟩, hm, fun _ => rfl, Or.inr rfl⟩
+        obtain ⟨M', hw', hm, hdn, hk⟩ := emitMove_ok p hy e M hw i _ hi hreg hd' hv.outLt hfree' (fun _ => rfl) _ hem
+        exact ⟨⟨M', hw'⟩, hm, fun _ => rfl, Or.inr (Or.inl rfl), hk⟩
     · have hfree2 : (!(e.ctx.w (groupOf (e.ctx.var i).out.regType)).isAssigned (e.ctx.var i).out.regId ||
           decide ((e.ctx.var i).cur.regId = (e.ctx.var i).out.regId)) = false := by simpa using hfree
       simp only [hfree2, Bool.false_eq_true, if_false] at h
@@ -66,8 +73,8 @@ theorem shuffleVar_ok (p : Params) (hy : Hyp p) (e : Emit) (M : State) (hw : WF 
       obtain ⟨altId, hphys⟩ := hsome
       have hphys2 := hphys; unfold physAt at hphys2
       simp only [hphys2, Option.getD_some] at h
-      obtain ⟨haltLt, _, _⟩ := hw.inv _ _ altId hv.grpLt hv.outLt hphys
-      have ha := hw.var altId haltLt
+      obtain ⟨haltLt, _, _, harg⟩ := hw.inv _ _ altId hv.grpLt hv.outLt hphys
+      have ha := hw.var altId haltLt harg
       by_cases hcnd : (!(e.ctx.var altId).outInit || ((e.ctx.var altId).out.isReg &&
           decide ((e.ctx.var altId).out.regId = (e.ctx.var i).cur.regId))) = true
       · simp only [hcnd, if_true] at h
@@ -82,12 +89,12 @@ theorem shuffleVar_ok (p : Params) (hy : Hyp p) (e : Emit) (M : State) (hw : WF 
             have hrs' : regSwap p.cfg (swapRt (e.ctx.var i).cur.regType (e.ctx.var altId).cur.regType)
                 (e.ctx.var i).out.regId (e.ctx.var i).cur.regId = some ins := hrs
             cases h
-            obtain ⟨M', hw', hm, hdn⟩ := swap_ok p hy e M hw i altId hi hd' hne hphys hcond hsw ins hrs' _ _ _ rfl rfl rfl
-            exact ⟨⟨M', hw'⟩, hm, fun h => h, Or.inl hdn⟩
+            obtain ⟨M', hw', hm, hdn, hk⟩ := swap_ok p hy e M hw i altId hi hreg hd' hne hphys hcond hsw ins hrs' _ _ _ rfl rfl rfl
+            exact ⟨⟨M', hw'⟩, hm, fun h => h, Or.inl hdn, hk⟩
         · have hsw' : hasSwap p.cfg.arch (groupOf (e.ctx.var i).cur.regType) = false := by simpa using hsw
           simp only [hsw', Bool.false_eq_true, if_false] at h
           cases hla : (e.ctx.w (groupOf (e.ctx.var i).out.regType)).lowestAvailable with
-          | none => simp only [hla] at h; cases h; exact ⟨⟨M, hw⟩, fun _ _ h => h, fun _ => rfl, Or.inr rfl⟩
+          | none => simp only [hla] at h; cases h; exact ⟨⟨M, hw⟩, fun _ _ h => h, fun _ => rfl, Or.inr (Or.inl rfl), fun _ => rfl⟩
           | some r0 =>
             simp only [hla] at h
             have fin : ∀ pick e1, pick < 32 → (e.ctx.w (groupOf (e.ctx.var i).out.regType)).isAssigned pick = false →
@@ -99,9 +106,9 @@ theorem shuffleVar_ok (p : Params) (hy : Hyp p) (e : Emit) (M : State) (hw : WF 
                 cases hh : (e.ctx.w (groupOf (e.ctx.var i).out.regType)).phys.getD pick none with
                 | none => rfl
                 | some x => rw [hh] at hp2; simp at hp2
-              obtain ⟨M', hw', hm, hdn⟩ := emitMove_ok p hy e M hw i pick hi hd' hp1 (Or.inl hfree')
+              obtain ⟨M', hw', hm, hdn, hk⟩ := emitMove_ok p hy e M hw i pick hi hreg hd' hp1 (Or.inl hfree')
                 (fun hs => by rw [← hv.grp, hsw'] at hs; exact absurd hs (by simp)) _ hem
-              exact ⟨⟨M', hw'⟩, hm, fun _ => rfl, Or.inr rfl⟩
+              exact ⟨⟨M', hw'⟩, hm, fun _ => rfl, Or.inr (Or.inl rfl), hk⟩
             cases hin : (e.ctx.w (groupOf (e.ctx.var i).out.regType)).lowestAvailable
                 (fun r => !bit (e.ctx.w (groupOf (e.ctx.var i).out.regType)).dstRegs r) with
             | some r1 =>
@@ -122,19 +129,21 @@ theorem shuffleVar_ok (p : Params) (hy : Hyp p) (e : Emit) (M : State) (hw : WF 
             decide ((e.ctx.var altId).out.regId = (e.ctx.var i).cur.regId))) = false := by simpa using hcnd
         simp only [hcnd', Bool.false_eq_true, if_false] at h
         cases h
-        exact ⟨⟨M, hw⟩, fun _ _ h => h, fun _ => rfl, Or.inr rfl⟩
+        exact ⟨⟨M, hw⟩, fun _ _ h => h, fun _ => rfl, Or.inr (Or.inl rfl), fun _ => rfl⟩
 
 theorem pass_ok (p : Params) (hy : Hyp p) : ∀ (L : List Nat) (e : Emit) (M : State) (fl : Flags), WF p e M →
     (∀ j ∈ L, j < p.n) → ∀ e' fl', L.foldlM (shuffleVar p.cfg) (e, fl) = .ok (e', fl') →
     (∃ M', WF p e' M') ∧ (∀ j, j < p.n → (e.ctx.var j).done = true → (e'.ctx.var j).done = true) ∧
-    (fl.pending = true → fl'.pending = true) ∧ (∀ j ∈ L, (e'.ctx.var j).done = true ∨ fl'.pending = true) := by
+    (fl.pending = true → fl'.pending = true) ∧
+    (∀ j ∈ L, (e'.ctx.var j).done = true ∨ fl'.pending = true ∨ (e'.ctx.var j).cur.isReg = false) ∧
+    (∀ j, (e'.ctx.var j).cur.isReg = (e.ctx.var j).cur.isReg) := by
   intro L
   induction L with
   | nil =>
     intro e M fl hw _ e' fl' h
     simp only [List.foldlM_nil, pure, Except.pure] at h
     cases h
-    exact ⟨⟨M, hw⟩, fun _ _ h => h, fun h => h, fun j hj => absurd hj (by simp)⟩
+    exact ⟨⟨M, hw⟩, fun _ _ h => h, fun h => h, fun j hj => absurd hj (by simp), fun _ => rfl⟩
   | cons a L ih =>
     intro e M fl hw hL e' fl' h
     rw [List.foldlM_cons] at h
@@ -146,18 +155,19 @@ theorem pass_ok (p : Params) (hy : Hyp p) : ∀ (L : List Nat) (e : Emit) (M : S
       simp only [bind, Except.bind] at h
       have hv := shuffleVar_ok p hy e M hw fl a (hL a (by simp)) e1 fl1 hs
       obtain ⟨M1, hw1⟩ := hv.wf
-      obtain ⟨hwf, hmono, hpend, hvis⟩ := ih e1 M1 fl1 hw1 (fun j hj => hL j (by simp [hj])) e' fl' h
-      refine ⟨hwf, fun j hj hd => hmono j hj (hv.mono j hj hd), fun hp => hpend (hv.pend hp), ?_⟩
+      obtain ⟨hwf, hmono, hpend, hvis, hkind⟩ := ih e1 M1 fl1 hw1 (fun j hj => hL j (by simp [hj])) e' fl' h
+      refine ⟨hwf, fun j hj hd => hmono j hj (hv.mono j hj hd), fun hp => hpend (hv.pend hp), ?_, fun j => (hkind j).trans (hv.kind j)⟩
       intro j hj
       rcases List.mem_cons.1 hj with rfl | hj'
-      · rcases hv.visited with h1 | h1
+      · rcases hv.visited with h1 | h1 | h1
         · exact Or.inl (hmono _ (hL _ (by simp)) h1)
-        · exact Or.inr (hpend h1)
+        · exact Or.inr (Or.inl (hpend h1))
+        · exact Or.inr (Or.inr ((hkind _).trans h1))
       · exact hvis j hj'
 
 theorem loop_ok (p : Params) (hy : Hyp p) : ∀ (fuel : Nat) (e : Emit) (M : State) (fl : Flags), WF p e M → fl.pending = false →
     ∀ e', shuffleLoop p.cfg p.n fuel e fl = .ok e' →
-    ∃ M', WF p e' M' ∧ ∀ j, j < p.n → (e'.ctx.var j).done = true := by
+    ∃ M', WF p e' M' ∧ ∀ j, j < p.n → (e'.ctx.var j).cur.isReg = true → (e'.ctx.var j).done = true := by
   intro fuel
   induction fuel with
   | zero => intro e M fl _ _ e' h; simp [shuffleLoop] at h
@@ -170,7 +180,7 @@ theorem loop_ok (p : Params) (hy : Hyp p) : ∀ (fuel : Nat) (e : Emit) (M : Sta
       obtain ⟨e1, fl1⟩ := s1
       rw [hs] at h
       simp only at h
-      obtain ⟨⟨M1, hw1⟩, _, _, hvis⟩ := pass_ok p hy (List.range p.n) e M fl hw (fun j hj => List.mem_range.1 hj) e1 fl1 hs
+      obtain ⟨⟨M1, hw1⟩, _, _, hvis, _⟩ := pass_ok p hy (List.range p.n) e M fl hw (fun j hj => List.mem_range.1 hj) e1 fl1 hs
       by_cases hp : fl1.pending = true
       · simp only [hp, Bool.not_true, Bool.false_eq_true, if_false] at h
         split at h
@@ -179,22 +189,23 @@ theorem loop_ok (p : Params) (hy : Hyp p) : ∀ (fuel : Nat) (e : Emit) (M : Sta
       · have hp' : fl1.pending = false := by simpa using hp
         simp only [hp', Bool.not_false, if_true] at h
         cases h
-        refine ⟨M1, hw1, fun j hj => ?_⟩
-        rcases hvis j (List.mem_range.2 hj) with h1 | h1
+        refine ⟨M1, hw1, fun j hj hr => ?_⟩
+        rcases hvis j (List.mem_range.2 hj) with h1 | h1 | h1
         · exact h1
         · rw [hp'] at h1; exact absurd h1 (by simp)
+        · rw [hr] at h1; exact absurd h1 (by simp)
 
 /-- **register phase**: from a well-formed context, whatever the pass loop emits with `ok` leaves every variable's destination
     register holding that variable in destination form -/
 theorem regphase_correct (p : Params) (hy : Hyp p) (e : Emit) (M : State) (hw : WF p e M) (fuel : Nat) (e' : Emit)
-    (h : shuffleLoop p.cfg p.n fuel e {} = .ok e') :
+    (h : shuffleLoop p.cfg p.n fuel e {} = .ok e') (hall : ∀ i, i < p.n → (e'.ctx.var i).cur.isReg = true) :
     ∃ M', run p.vis p.f p.cfg.arch p.M0 e'.out = some M' ∧
       ∀ i, i < p.n → destOk M' i (.reg (groupOf (p.out i).regType) (p.out i).regId) = true := by
   obtain ⟨M', hw', hdone⟩ := loop_ok p hy fuel e M {} hw rfl e' h
   refine ⟨M', hw'.runs, fun i hi => ?_⟩
-  have hv := hw'.var i hi
+  have hv := hw'.var i hi (hall i hi)
   obtain ⟨tok, hget, htv, _, hd, _⟩ := hv.tok
-  obtain ⟨hreg, hdv⟩ := hd (hdone i hi)
+  obtain ⟨hreg, hdv⟩ := hd (hdone i hi (hall i hi))
   unfold destOk
   have : M'.get (Loc.reg (groupOf (p.out i).regType) (p.out i).regId) = some tok := by
     rw [← hv.out, ← hv.grp, ← hreg]; exact hget
